@@ -237,6 +237,18 @@ def _line3(g, p, q):
     return g.Line(g.Point(p), g.Point(q))
 
 
+def _degenerate_triple(rng, p, q, r, a, b):
+    """One of the ways three vectors can be dependent: the third in the span of the others, two of them proportional, all proportional."""
+    v = int(rng.integers(0, 6))
+    if v <= 2:
+        return p, q, a * p + b * q
+    if v == 3:
+        return p, a * p, r
+    if v == 4:
+        return p, q, b * q
+    return p, a * p, b * p
+
+
 def degenerate_case(g, rng, kind, mode, degenerate):
     """Returns (fn, args) for one configuration of the given kind; degenerate=True builds the measure-zero case."""
     a, b = _mult(rng, mode), _mult(rng, mode)
@@ -258,7 +270,7 @@ def degenerate_case(g, rng, kind, mode, degenerate):
     if kind == 3:  # three points 3D: collinear
         p, q, r = _gen_indep(rng, 4, 3, mode)
         if degenerate:
-            r = a * p + b * q
+            p, q, r = _degenerate_triple(rng, p, q, r, a, b)
         return g.join, [g.Point(p), g.Point(q), g.Point(r)]
     if kind == 4:  # point + line 3D: point on the line
         p, q, r = _gen_indep(rng, 4, 3, mode)
@@ -276,7 +288,7 @@ def degenerate_case(g, rng, kind, mode, degenerate):
     if kind == 6:  # three planes through a line
         e, f, h = _gen_indep(rng, 4, 3, mode)
         if degenerate:
-            h = a * e + b * f
+            e, f, h = _degenerate_triple(rng, e, f, h, a, b)
         return g.meet, [g.Plane(e), g.Plane(f), g.Plane(h)]
     if kind == 7:  # plane + line: line in the plane
         p, q, r = _gen_indep(rng, 4, 3, mode)
